@@ -24,9 +24,15 @@ pub fn case_loop(ctx: &Ctx, rep: &mut Report, mut f: impl FnMut(u64, u64, &mut R
         return;
     }
     let mut c = ctx.shard as u64;
+    if let Some(fc) = ctx.from_case {
+        while c < fc {
+            c += ctx.nshards as u64;
+        }
+    }
     let mut n = 0;
     while !ctx.expired() && n < ctx.max_cases {
         ctx.journal(c);
+        ctx.checkpoint(rep);
         f(c, case_seed(ctx, c), rep);
         rep.cases += 1;
         n += 1;
